@@ -23,6 +23,7 @@ import onnxscript.rewriter._matcher as _matcher
 import onnxscript.rewriter._pattern_ir as _pattern_ir
 import onnxscript.utils.metadata_merger as metadata_merger
 from onnxscript import ir
+from onnxscript._internal import _verif
 from onnxscript.ir import convenience
 
 T = TypeVar("T")
@@ -783,6 +784,31 @@ class RewriteRuleSet:
                         delta.match.nodes, delta.new_nodes
                     )
 
+                if _verif.ENABLED:
+                    _verif.emit(
+                        "rewriter",
+                        "Apply",
+                        container=_verif.tok(graph_or_function, "g"),
+                        rule=str(rule.name),
+                        root=_verif.tok(node, "n"),
+                        matched=[_verif.tok(n, "n") for n in delta.match.nodes],
+                        removes=bool(rule.remove_nodes),
+                        as_function=bool(rule.as_function),
+                        inserted=[
+                            {
+                                "id": _verif.tok(n, "n"),
+                                "op": n.op_type,
+                                "domain": n.domain,
+                                "ins": [_verif.tok(v, "v") for v in n.inputs],
+                                "outs": [_verif.tok(v, "v") for v in n.outputs],
+                            }
+                            for n in delta.new_nodes
+                        ],
+                        old_outs=[_verif.tok(v, "v") for v in delta.match.outputs],
+                        new_outs=[_verif.tok(v, "v") for v in delta.new_outputs],
+                        new_inits=[_verif.tok(v, "v") for v in delta.new_initializers],
+                    )
+
                 count += 1
                 break
 
@@ -827,6 +853,12 @@ class RewriteRuleSet:
         # Rewriting may introduce new functions. In the following loop,
         # we restrict rewriting to original functions, not newly introduced ones.
         original_functions = list(model.functions.values())
+        if _verif.ENABLED and tracer is None:
+            _verif.begin(
+                "rewriter",
+                model=_verif.snapshot_model(model),
+                rules=[str(rule.name) for rule in self.rules],
+            )
         count = self._apply_to_graph_or_function(
             model, model.graph, verbose=verbose, tracer=tracer
         )
@@ -835,13 +867,24 @@ class RewriteRuleSet:
             count += self._apply_to_graph_or_function(
                 model, function, verbose=verbose, tracer=tracer
             )
+        if _verif.ENABLED and tracer is None:
+            _verif.emit("rewriter", "Applied", count=count, model=_verif.snapshot_model(model))
         if self.remove_unused_nodes:
             onnxscript.optimizer.remove_unused_nodes(model)
+        if _verif.ENABLED and tracer is None:
+            _verif.emit(
+                "rewriter",
+                "Cleaned",
+                ran=bool(self.remove_unused_nodes),
+                model=_verif.snapshot_model(model),
+            )
         if count > 0:
             # TapeBuilder may create values with names that clash with existing graph
             # values when nodes are inserted via replace_nodes_and_values.
             # NameFixPass ensures all value names are unique before returning.
             ir_passes_common.NameFixPass()(model)
+        if _verif.ENABLED and tracer is None:
+            _verif.end("rewriter", count=count, model=_verif.snapshot_model(model))
         return count
 
     def __iter__(self):
